@@ -34,6 +34,7 @@ CREATOR = z3.Function("CREATOR", Visit, z3.IntSort())
 ADDRCODE = z3.Function("ADDRCODE", z3.StringSort(), z3.IntSort())
 ADDRDECODE = z3.Function("ADDRDECODE", z3.IntSort(), z3.StringSort())
 NAMED = z3.Function("NAMED", z3.StringSort(), z3.IntSort())
+RANK = z3.Function("RANK", z3.IntSort(), z3.IntSort())  # stack-value trees are built bottom-up: well founded
 
 MAX_UINT64 = 2 ** 64 - 1
 ZERO_ADDRESS = "AAAAAAAAAAAAAAAAAAAAAAAAAAAAAAAAAAAAAAAAAAAAEVAL4QAJS7JHB4"  # the Algorand zero address (spec side)
@@ -102,6 +103,10 @@ def known_sv_axioms(ex: Any, st: Any, n: VRef) -> List[Any]:
     # stack effect of the fragment's single-result opcodes (spec table; the classes are checked against it under C11)
     for cname in list(BINOPS) + ["Not", "Int", "PushInt", "Txn", "Gtxn", "Gtxns", "Global", "Addr", "IntcInstruction"]:
         out.append(z3.Implies(cls_is(ex, ins.term, cname), z3.Select(push_arr, ins.term) == 1))
+    _, el0 = ex._elem_arr(st2, args.elem)
+    for j in range(3):
+        aj = z3.Select(z3.Select(el0, args.ref), j)
+        out.append(z3.Implies(nargs > j, z3.And(RANK(aj) >= 0, RANK(aj) < RANK(n.term))))
     v = st.ghost.get("v")
     if v is None:
         return out
@@ -169,6 +174,9 @@ ON_TOUCH.setdefault("KnownStackValue", []).append(known_sv_axioms)
 
 def ev(v: Any, sv: Any, depth: int = 2) -> Any:
     """EV(v, sv) with the semantic axioms of sv (and of its arguments, to `depth`) instantiated."""
+    from spec.native import NativeVisit, native_ev
+    if isinstance(v, NativeVisit):
+        return native_ev(v, sv)
     from pyvc.dsl import current
     ctx = current()
     ex, st = ctx.ex, ctx.st
